@@ -53,6 +53,31 @@ Definition config_create (start interval leeway cur_clock now_wall now_up now_mo
   let deadline := if u64 (target + leeway) <? INT64_MAX then u64 (target + leeway) else INT64_MAX in
   (clock, target, deadline, interval).
 
+(* ---- _dispatch_interval_config_create (source.c:1238) for DISPATCH_SOURCE_TYPE_INTERVAL: interval in milliseconds (or
+   frames of 1/60 s with DISPATCH_INTERVAL_UI_ANIMATION), leeway in permille of the interval (or UINT64_MAX = default),
+   start must be DISPATCH_TIME_NOW or FOREVER.  None = DISPATCH_CLIENT_CRASH.  The first target is the next multiple of
+   the interval on the uptime clock. *)
+Definition NSEC_PER_FRAME : Z := 16666666.
+Definition FOREVER_NSEC : Z := 31536000000000000.
+Definition interval_config_create (start interval leeway : Z) (animation : bool) (now_up : Z) : option (Z * Z * Z * Z) :=
+  if start =? DISPATCH_TIME_FOREVER then Some (0, INT64_MAX, INT64_MAX, INT64_MAX)
+  else if negb (start =? DISPATCH_TIME_NOW) then None
+  else if interval =? 0 then None
+  else
+    let unit := if animation then NSEC_PER_FRAME else 1000000 in
+    let interval := if interval <=? FOREVER_NSEC / unit then u64 (interval * unit) else FOREVER_NSEC in
+    let interval := f_dispatch_time_nano2mach interval in
+    let start := u64 (now_up + interval) in
+    let start := u64 (start - start mod interval) in
+    let lw := if leeway <=? 1000 then Some (u64 (interval * leeway) / 1000)
+              else if negb (leeway =? UINT64_MAX) then None
+              else if animation then Some (f_dispatch_time_nano2mach NSEC_PER_FRAME)
+              else Some (interval / 2) in
+    match lw with
+    | None => None
+    | Some lw => Some (0, start, u64 (start + lw), interval)
+    end.
+
 (* ---- _dispatch_after (source.c:1324): what dispatch_after does with `when`.
    AfterNever: when == FOREVER, the block is dropped.  AfterNow: delta == 0, plain dispatch_async.
    AfterTimer clock target deadline: a one-shot source with DISPATCH_TIMER_AFTER, interval UINT64_MAX, activated. *)
@@ -290,6 +315,29 @@ Fixpoint drain (fuel : nat) (st : state) (nows : Z -> Z) (ev : list fire) (calls
     else (st', ev ++ e, calls ++ c, true)
   end.
 
+(* ---- the kernel side of the timer of one clock, src/event/event_epoll.c:360-444: one timerfd per clock, registered with
+   epoll as a ONESHOT event.  k_value = the absolute time of the last timerfd_settime (-1: none).
+   kernel calls: KCreate = timerfd_create, KSettime v = timerfd_settime(TFD_TIMER_ABSTIME, v), KCtl op = epoll_ctl
+   (1 ADD, 2 DEL, 3 MOD) *)
+Record ktimer := mkK { k_fd : bool; k_registered : bool; k_armed : bool; k_value : Z }.
+Definition ktimer0 : ktimer := mkK false false false (-1).
+Inductive kop := KCreate | KSettime (v : Z) | KCtl (op : Z).
+(* _dispatch_timeout_program (event_epoll.c:373) *)
+Definition timeout_program (k : ktimer) (target : Z) : ktimer * list kop :=
+  if (target >=? INT64_MAX) && negb (k_registered k) then (k, [])
+  else
+    let c0 := if k_fd k then [] else [KCreate] in
+    if target <? INT64_MAX then
+      if negb (k_registered k) then (mkK true true true target, c0 ++ [KSettime target; KCtl 1])
+      else if negb (k_armed k) then (mkK true true true target, c0 ++ [KSettime target; KCtl 3])
+      else (mkK true (k_registered k) (k_armed k) target, c0 ++ [KSettime target])
+    else (mkK true false false (k_value k), c0 ++ [KCtl 2]).
+(* _dispatch_event_loop_timer_arm / _delete (event_epoll.c:431-444) *)
+Definition loop_timer_arm (k : ktimer) (delay now : Z) := timeout_program k (u64 (delay + now)).
+Definition loop_timer_delete (k : ktimer) := timeout_program k UINT64_MAX.
+(* _dispatch_event_merge_timer (event_epoll.c:360), kernel side: the ONESHOT registration is spent *)
+Definition merge_timer_k (k : ktimer) : ktimer := mkK (k_fd k) (k_registered k) false (k_value k).
+
 (* ---- timer branch of _dispatch_source_latch_and_call (source.c:529-546) with _dispatch_source_timer_data:
    returns the value dispatch_source_get_data reports in the handler *)
 Definition latch (st : state) (t now : Z) : state * Z :=
@@ -344,7 +392,8 @@ Definition tstep (n : Z) (st : state) (o : top) : state * list Z :=
     (st', flat_map (fun '(k, i, tg, lw) => [k; i; tg; lw]) calls ++ [-1] ++ obs_state st' n)
   | TDrain n0 n1 n2 =>
     let nows := fun c => if c =? 0 then n0 else if c =? 1 then n1 else n2 in
-    let '(st', ev, calls, fin) := drain 16 st nows [] [] in
+    (* one pass more than there are timer records always suffices (TimerSys_proofs.drain_term) *)
+    let '(st', ev, calls, fin) := drain (Z.to_nat n + 1) st nows [] [] in
     (st', b2z fin :: flat_map (fun '(t, p, _, _) => [t; p]) ev ++ [-1]
           ++ flat_map (fun '(k, i, tg, lw) => [k; i; tg; lw]) calls ++ [-1; b2z (s_dirty st')] ++ obs_state st' n)
   | TObs => (st, obs_state st n)
